@@ -434,6 +434,7 @@ def run_o_chunk(_chunk, st):
     from dxv import ocheck
     n = ocheck.compare(st, ('records', 'to_bytes', 'stats'),
                        sut.HarnessError)
+    n += ocheck.in_process_variants(st, ('records', 'to_bytes', 'stats'))
     st.bulk(n, n, sample={'results-compared': n})
 
 
